@@ -1402,7 +1402,7 @@ func (eng *Engine) frozenAfterObligations(tag string) []*Obligation {
 			if !has {
 				continue
 			}
-			o := &Obligation{Name: "order#" + rule.Label, Func: rule.Allowed[0], Kind: "structural", Label: rule.Label, Tags: rule.Tags,
+			o := &Obligation{Name: "order#" + rule.Label, Func: filepath.Base(p) + "." + rule.Allowed[0], Kind: "structural", Label: rule.Label, Tags: rule.Tags,
 				Pos: fmt.Sprintf("%s:%d", rule.File, rule.Line), Structural: true, Guard: "true",
 				Goal: fmt.Sprintf("in %s nothing after a call of %s writes into a map or through a field, element or pointer", rule.Allowed[0], rule.Callee)}
 			fn := eng.ld.lookupFunc(p, rule.Allowed[0])
